@@ -591,6 +591,49 @@ func c06(c *core.Ctx) {
 	c.Family("bwd-empty", 36, func(k *core.Case) { c06Backward(k, gen.Header(k.R), k.Index%36) })
 	// several genuine peer datagrams sit back to back in ONE receive buffer (a batch read); each is presented as a
 	// sub-slice whose capacity runs into the next: every one must be accepted and decoded correctly, in any order
+	// the random source fails during one protection; the application retries with the SAME message object once the
+	// source works again: the retry is the protected form of the message's payloads
+	c.Family("fwd-retry-after-refused-protection", c.N(18*10, 18*1000), func(k *core.Case) {
+		s, init, _ := cell(k.Index % 18 * 2)
+		raw := libsa.RandomRaw(k.R, s)
+		m := gen.Msg(k.R, gen.Opt{Protected: true, MaxPayloads: 3})
+		lm, err := buildMsgObject(m)
+		if err != nil {
+			return
+		}
+		ks, kerr := libsa.NewKey(raw)
+		if kerr != nil {
+			return
+		}
+		f := &mon.Faulty{Src: mon.RealRand(), FailAt: k.Index / 18 % 3, Mode: k.Index / 54 % 3, Err: mon.FaultErrors[k.Index%len(mon.FaultErrors)]}
+		var e1 error
+		p1 := core.Try(func() { mon.WithRand(f, func() { _, e1 = ike.EncodeEncrypt(lm, ks, role(init)) }) })
+		w := M{"msg": msgJSON(m), "suite": s.Name(), "keys": raw.JSON(), "fault_at_read": f.FailAt, "fault_mode": f.Mode}
+		if p1 != nil {
+			k.Violate("panic", "protect-fault: "+p1.Sig(), "panic", panicData(p1, w))
+			return
+		}
+		if !f.Hit || e1 == nil {
+			return // the failure point lies behind the reads of this call
+		}
+		k.Eval(1)
+		var wire []byte
+		p2 := core.Try(func() { wire, err = ike.EncodeEncrypt(lm, ks, role(init)) })
+		if p2 != nil || err != nil {
+			k.Violate("protect-error", "retry-after-refused-protection-fails", fmt.Sprint(err, p2), w)
+			return
+		}
+		um, _, _, uerr := ref.Unprotect(wire, s, raw.Dir(init))
+		if uerr != nil || !abs.Equal(m, um) {
+			d := fmt.Sprint(uerr)
+			if uerr == nil {
+				d = abs.Diff(m, um)
+			}
+			k.Violate("mismatch", "retry-after-refused-protection-sends-other-payloads", d, w)
+			return
+		}
+		k.Count("retries_after_refused_protection", 1)
+	})
 	c.Family("bwd-back-to-back", c.N(36*12, 36*2000), func(k *core.Case) {
 		s, init, pre := cell(k.Index % 36)
 		raw := libsa.RandomRaw(k.R, s)
@@ -798,7 +841,7 @@ func c06(c *core.Ctx) {
 		k.Distinct(fmt.Sprintf("limit|ok|%s|%d", s.Name(), inner/16))
 	})
 	freshFamily(c, "C06", "fresh-process", c.N(3, 60))
-	c.Require("batches_of_datagrams_in_one_buffer", "fwd_cells_x_size_thresholds", "colliding_ciphertext_pairs_presented", "fresh_process_cases_ok", "searched_crypto_value_found", "payload_list_sent_in_three_messages", "at_limit_refused_with_error", "at_limit_protected_ok", "msg_object_completed-after-plain-encode", "msg_object_header-parsed-from-a-protected-datagram", "msg_object_object-decoded-from-another-datagram", "msg_object_NewMessage")
+	c.Require("retries_after_refused_protection", "batches_of_datagrams_in_one_buffer", "fwd_cells_x_size_thresholds", "colliding_ciphertext_pairs_presented", "fresh_process_cases_ok", "searched_crypto_value_found", "payload_list_sent_in_three_messages", "at_limit_refused_with_error", "at_limit_protected_ok", "msg_object_completed-after-plain-encode", "msg_object_header-parsed-from-a-protected-datagram", "msg_object_object-decoded-from-another-datagram", "msg_object_NewMessage")
 }
 
 var _ = message.TypeSK
